@@ -512,4 +512,83 @@ theorem no_buffer_overflow_alloc (fails : Bool) (cfg : Cfg) (tbl : Mhd.Nonce.Tab
 example : (checkInnerA true Ex.cfg Ex.tbl 6000 ExA.req Ex.call 90 1000 (some ExA.d)).2 ≠ .fault .tmp1Overflow :=
   (no_buffer_overflow_alloc true _ _ _ _ _ _ _ _).2
 
+/-! ## 9. The extended-notation user name is compared as (length, bytes)
+
+  `get_rq_extended_uname_copy_z` percent-decodes `username*`; the result is binary with an explicit length
+  (`%00` decodes to a zero byte).  The check compares `username_len != res || memcmp (…)`: a decoded name that is
+  the configured name followed by NUL and anything else, or cut at a NUL, is another name. -/
+
+/-- the stage: whenever the decoded name is not exactly the configured one the class is `MHD_DAUTH_WRONG_USERNAME` -/
+theorem extended_username_exact_stage (a : Algo) (call : Call) (d : DAuth) (e : Param) (name : List UInt8)
+    (hu : d.userhash = false) (hn : d.slots kUsername = none) (he : d.slots kUsernameExt = some e)
+    (hb : noBuffer (e.raw.length + 1 - extMinLen) = false) (hdec : extName e.raw = some name) :
+    stageUsername a call d = (if name = call.username then .ok () else .error .wrongUsername) := by
+  simp [stageUsername, hu, hn, he, need, bind, Except.bind, hb, hdec]
+
+section
+variable (cfg : Cfg) (tbl : Mhd.Nonce.Table) (now : Nat) (r : Req) (call : Call) (timeout maxNc : Nat)
+  (d : DAuth) (hwq : WQ d) (hqp : QopParsed d) (hr : QopRange (semOf d))
+include hwq hqp hr
+
+/-- a credential in extended notation whose decoded name differs from the configured user name — in any byte or
+    in its length — is never accepted -/
+theorem extended_username_exact (e : Param) (name : List UInt8)
+    (hn : d.slots kUsername = none) (he : d.slots kUsernameExt = some e) (hdec : extName e.raw = some name)
+    (hne : name ≠ call.username) :
+    (checkInner cfg tbl now r call timeout maxNc (some d)).2 ≠ .ok := by
+  apply reject_username cfg tbl now r call timeout maxNc d hwq hqp hr
+  intro a hU
+  rcases hU with ⟨_, h2, _⟩ | ⟨_, _, e', h3, h4⟩ | ⟨_, h2, _⟩
+  · simp [semOf, hn] at h2
+  · simp only [semOf, he, Option.map_some, Option.some.injEq] at h3
+    subst h3
+    rw [hdec] at h4
+    exact hne (Option.some.inj h4)
+  · simp [semOf, he] at h2
+
+/-- **the decoded length must equal the configured length** -/
+theorem extended_username_compared_with_length (e : Param) (name : List UInt8)
+    (hn : d.slots kUsername = none) (he : d.slots kUsernameExt = some e) (hdec : extName e.raw = some name)
+    (hlen : name.length ≠ call.username.length) :
+    (checkInner cfg tbl now r call timeout maxNc (some d)).2 ≠ .ok :=
+  extended_username_exact cfg tbl now r call timeout maxNc d hwq hqp hr e name hn he hdec
+    (fun h => hlen (by rw [h]))
+
+/-- in particular a decoded name with an embedded zero byte never names a configured user (a C string) -/
+theorem extended_username_with_nul_rejected (e : Param) (name : List UInt8)
+    (hn : d.slots kUsername = none) (he : d.slots kUsernameExt = some e) (hdec : extName e.raw = some name)
+    (h0 : (0 : UInt8) ∈ name) (hc : ∀ b ∈ call.username, b ≠ 0) :
+    (checkInner cfg tbl now r call timeout maxNc (some d)).2 ≠ .ok :=
+  extended_username_exact cfg tbl now r call timeout maxNc d hwq hqp hr e name hn he hdec
+    (fun h => hc 0 (h ▸ h0) rfl)
+end
+
+/-- `username*=UTF-8''admin%00root` -/
+def exAdminRaw : List UInt8 := [85, 84, 70, 45, 56, 39, 39, 97, 100, 109, 105, 110, 37, 48, 48, 114, 111, 111, 116]
+def exAdminD : DAuth :=
+  { slots := fun k => if k = kUsernameExt then some ⟨0, exAdminRaw, false⟩ else none,
+    userhash := false, algo3 := algoMd5, qop := qopAuth }
+def exAdminCall : Call := ⟨[114], [97, 100, 109, 105, 110], .password [112], 0, 0, mqopAuth, malgoMd5⟩
+
+/-- kernel-evaluated: for the configured user `admin` the model decodes `admin%00root` to the eleven bytes
+    `admin NUL root` and answers `MHD_DAUTH_WRONG_USERNAME`; so does `admin%00` -/
+example : extName exAdminRaw = some [97, 100, 109, 105, 110, 0, 114, 111, 111, 116] := by decide +kernel
+example : stageUsername .md5 exAdminCall exAdminD = .error .wrongUsername := by
+  rw [extended_username_exact_stage .md5 exAdminCall exAdminD ⟨0, exAdminRaw, false⟩ _ rfl rfl rfl (by decide +kernel)
+    (by decide +kernel : extName exAdminRaw = some [97, 100, 109, 105, 110, 0, 114, 111, 111, 116])]
+  rw [if_neg (by decide)]
+example : stageUsername .md5 exAdminCall
+    { exAdminD with slots := fun k => if k = kUsernameExt then some ⟨0, exAdminRaw.take 15, false⟩ else none }
+    = .error .wrongUsername := by
+  rw [extended_username_exact_stage .md5 exAdminCall _ ⟨0, exAdminRaw.take 15, false⟩ _ rfl rfl rfl (by decide +kernel)
+    (by decide +kernel : extName (exAdminRaw.take 15) = some [97, 100, 109, 105, 110, 0])]
+  rw [if_neg (by decide)]
+/-- … while `username*=UTF-8''admin` is the user -/
+example : stageUsername .md5 exAdminCall
+    { exAdminD with slots := fun k => if k = kUsernameExt then some ⟨0, exAdminRaw.take 12, false⟩ else none }
+    = .ok () := by
+  rw [extended_username_exact_stage .md5 exAdminCall _ ⟨0, exAdminRaw.take 12, false⟩ _ rfl rfl rfl (by decide +kernel)
+    (by decide +kernel : extName (exAdminRaw.take 12) = some [97, 100, 109, 105, 110])]
+  rw [if_pos (by decide)]
+
 end Mhd.C12
